@@ -370,7 +370,10 @@ class Harness:
         trace.append(f"exit {obs['rc']}")
         files = []
         for rel in sorted(obs['post']):
-            cls, mk = self.classify(obs['wd'], rel, obs['pre'], obs['post'])
+            try:
+                cls, mk = self.classify(obs['wd'], rel, obs['pre'], obs['post'])
+            except FileNotFoundError:
+                continue        # shared directory of a concurrent round: another driver's ld unlinked its output just now
             files.append(f"{rel}={cls}[{','.join(map(str, mk))}]")
         obs['temps'] = created
         obs['leftover'] = [t for t in created if os.path.lexists(t)]
@@ -805,7 +808,10 @@ def concurrency(ctx, corr, H):
             def own_file(ob):
                 if own not in ob['post']:
                     return None
-                return H.classify(ob['wd'], own, ob['pre'], ob['post'])
+                final = H.snapshot_dir(ob['wd'])       # after ALL drivers of the round have finished
+                if own not in final:
+                    return None
+                return H.classify(ob['wd'], own, ob['pre'], final)
             a = (s['rc'], s['trace'], own_file(s))
             b = (o['rc'], o['trace'], own_file(o))
             if o['leftover']:
